@@ -419,8 +419,16 @@ pub fn opcodes_weight(opcodes: &[OpCode]) -> u128 {
     sum
 }
 
+#[cfg(melstf_verif)]
+thread_local! {
+    /// verification hook: number of `opcodes_car_weight` calls made on this thread
+    pub static VERIF_CAR_WEIGHT_CALLS: std::cell::Cell<u64> = std::cell::Cell::new(0);
+}
+
 /// Compute the weight of the first bit of opcodes, returning a weight and what remains.
 fn opcodes_car_weight(opcodes: &[OpCode]) -> (u128, &[OpCode]) {
+    #[cfg(melstf_verif)]
+    VERIF_CAR_WEIGHT_CALLS.with(|c| c.set(c.get() + 1));
     if opcodes.is_empty() {
         return (0, opcodes);
     }
